@@ -501,6 +501,22 @@ def build_views(facts):
                         continue
                     elif is_buffer_ty(ty):
                         f.role = 'buffer'
+                        el = (ty.get('args') or [None])[0] if ty.get('adt') in ('std::vec::Vec', 'std::collections::VecDeque') else None
+                        comps = None
+                        if isinstance(el, dict) and isinstance(el.get('tuple'), list) and len(el['tuple']) >= 2:
+                            comps = [(str(i), t_) for i, t_ in enumerate(el['tuple'])]
+                        elif isinstance(el, dict) and el.get('adt') in facts.adts and el.get('adt') not in view_adts:
+                            ea = facts.adts[el['adt']]
+                            if ea.get('kind') == 'Struct' and len(ea.get('variants', [])) == 1 and ea['variants'][0]['fields']:
+                                esub = {g: a for g, a in zip(ea.get('generics', []), el.get('args', []))}
+                                comps = [(ef['name'], subst_ty(ef['ty'], esub)) for ef in ea['variants'][0]['fields']]
+                        if comps:
+                            # a queue of small structs / tuples: the value graph presents it as one queue per component
+                            for cn, cty in comps:
+                                cf = Field(prefix + fld['name'] + '.' + cn, {'adt': ty['adt'], 'args': [cty]}, fld['ty_str'])
+                                cf.role = 'buffer'
+                                v.fields.append(cf)
+                            continue
                     else:
                         f.role = 'cell'
                     v.fields.append(f)
